@@ -255,7 +255,7 @@ def byval(x):
     return x
 
 
-def run_solver(case, policy, negate=False, minimize=None):
+def run_solver(case, policy, negate=False, minimize=None, entropy_salt=0):
     """Execute the solver once.  negate: objective is -f (mirror run)."""
     solver = case["solver"]
     p = case["params"]
@@ -265,6 +265,7 @@ def run_solver(case, policy, negate=False, minimize=None):
     clock = seams.SimClock(case.get("clock"))
     prog = seams.Progressor(policy, clock)
     plan = seams.make_rng_plan(case.get("rng"))
+    plan.entropy ^= entropy_salt  # what the OS would hand to an un-seeded generator differs from run to run
     sg = -1.0 if negate else 1.0
 
     boxed = bool(case.get("boxed")) and land["type"] == "table"
@@ -622,7 +623,9 @@ def execute(case) -> Outcome:
         policy = {"kind": "never"}
 
     # (f) reproducibility: same case again, same simulated entropy
-    again = run_solver(case, policy)
+    # (with a fixed seed the entropy an un-seeded generator would get is different the second time, as it is in production:
+    # a solver that drops the caller's seed on some path - seed=0 read as "no seed" - only replays when it never draws)
+    again = run_solver(case, policy, entropy_salt=0x5BD1E995 if case.get("seed") is not None else 0)
     if summary(again) != summary(main) or again.history != main.history:
         o.violate(PROP, "irreproducible", f"{solver}: two executions of the same case differ: {summary(main)} vs {summary(again)}",
                   target=solver, family="std")
